@@ -308,7 +308,7 @@ def _prop_fields(obs):
     """result, trace and definitions of an evaluator observation (poll counts, depth marks and the
     debugger's call log are tie-only fields)"""
     obs = re.sub(r" (marks|calls)=\[[^\]]*\]", "", obs)
-    obs = re.sub(r" ticks=\d+", "", obs)
+    obs = re.sub(r" ticks=\S+", "", obs)
     return obs
 
 
@@ -419,7 +419,12 @@ def corr_mismatch(c):
         return None   # the model gave no answer in time (counted in the evidence as model_timeouts): no comparison
     if c.go.startswith("HANG") and (c.model.startswith("OOF") or c.model.startswith("MODEL-TIMEOUT")):
         return None   # both diverge: outside every property's quantifier (terminating programs)
-    if go_core(c.go) != c.model:
+    g, m = go_core(c.go), c.model
+    if " ticks=- " in g + " ":
+        # the run was made under a context with a deadline (payload d=1): contexts derived from it poll it too, the
+        # count is not comparable — everything else is
+        g, m = re.sub(r" ticks=\S+", "", g), re.sub(r" ticks=\S+", "", m)
+    if g != m:
         return "go=%s model=%s" % (go_core(c.go)[:300], c.model[:300])
     return None
 
